@@ -114,7 +114,7 @@ func (e *env) sencCases(r *hx.Rng, n int, next func() string) {
 		}
 		key := r.Bytes(16, nil)
 		iv := genIV(r, r.Pick(8, 16))
-		o := fragOpts{extraMoof: r.Pick(0, 1, 2), extraTraf: r.Pick(0, 1, 2, 3), moofBefore: r.Bool()}
+		o := fragOpts{extraMoof: r.Pick(0, 1, 2), extraTraf: r.Pick(0, 1, 2, 3), moofBefore: r.Bool(), wide: genWide(r, false)}
 		// the model's input: sample lengths and the protection ranges, computed independently of the fragment
 		desc := make([]string, ns)
 		okIn := true
